@@ -46,7 +46,7 @@ let llen l = list_len l 0
 let err_name (e : WireBase.err) : string =
   match e with
   | WireBase.EEOF -> "E:eof" | WireBase.EUEOF -> "E:ueof" | WireBase.ENonCanon -> "E:noncanon"
-  | WireBase.EStrTooLong -> "E:strtoolong" | WireBase.EBytesTooLong -> "E:bytestoolong" | WireBase.ETooMany -> "E:toomany" | WireBase.EHasTx -> "E:hastx"
+  | WireBase.EStrTooLong -> "E:strtoolong" | WireBase.EBytesTooLong -> "E:bytestoolong" | WireBase.ETooMany -> "E:toomany" | WireBase.EHasTx -> "E:hastx" | WireBase.EDataTooLarge -> "E:toolarge"
   | WireBase.EUALong -> "E:ualong" | WireBase.EPverLow -> "E:pverlow" | WireBase.EOversize -> "E:oversize"
   | WireBase.EWrongNet -> "E:wrongnet" | WireBase.EBadCmd -> "E:badcmd" | WireBase.EUnknownCmd -> "E:unknowncmd"
   | WireBase.ETypeMax -> "E:typemax" | WireBase.EChecksum -> "E:checksum"
@@ -91,6 +91,10 @@ let summarize (m : WireMsg.msg) : string =
   | WireMsg.MFeeFilter f -> "feefilter:" ^ dec_of_z f
   | WireMsg.MMemPool -> "mempool:"
   | WireMsg.MProtoconf (nf, mrl) -> Printf.sprintf "protoconf:%s,%s" (dec_of_n nf) (dec_of_n mrl)
+  | WireMsg.MFilterAdd d -> "filteradd:" ^ hex_of_bytes d
+  | WireMsg.MFilterClear -> "filterclear:"
+  | WireMsg.MFilterLoad (f, h, t, fl) ->
+    Printf.sprintf "filterload:%s,%s,%s,%s" (hex_of_bytes f) (dec_of_n h) (dec_of_n t) (dec_of_n fl)
   | WireMsg.MOpaque k -> "opaque:" ^ cmd_string k
 
 let split c s = if s = "" then [] else split_on c s
@@ -149,6 +153,12 @@ let parse_msg (s : string) : WireMsg.msg =
     (match split_on ',' body with
      | [nf; mrl] -> WireMsg.MProtoconf (n_of_string nf, n_of_string mrl)
      | _ -> failwith "protoconf")
+  | "filteradd" -> WireMsg.MFilterAdd (bytes_of_hex body)
+  | "filterclear" -> WireMsg.MFilterClear
+  | "filterload" ->
+    (match split_on ',' body with
+     | [f; h; t; fl] -> WireMsg.MFilterLoad (bytes_of_hex f, n_of_string h, n_of_string t, n_of_string fl)
+     | _ -> failwith "filterload")
   | _ -> failwith ("kind " ^ kind)
 
 let kind_of_string (cmd : string) : WireMsg.kind =
